@@ -279,6 +279,9 @@ func (x *Exec) callWrites(c *ssa.CallCommon, li *loopInfo) {
 	if fc.ModAll {
 		li.heapAll = true
 	}
+	for g := range x.ghostsMentioned(fc) {
+		li.ghosts[g] = true
+	}
 	for _, m := range fc.Modifies {
 		if m.Kind == "ident" {
 			if _, ok := x.C.Ghosts[m.Name]; ok {
